@@ -9,6 +9,7 @@ import tempfile
 import time
 import z3
 
+_RETRIES = [3]
 CVC5 = '/usr/bin/cvc5'
 Z3_OLD = '/usr/bin/z3'
 
@@ -62,32 +63,76 @@ def run_cli(cmd, smt, budget_s):
   return status, dt, out[:400]
 
 
+def start_cli(cmd, smt, budget_s):
+  f = tempfile.NamedTemporaryFile('w', suffix='.smt2', delete=False, dir=os.environ.get('PYVC_TMP', '/var/tmp'))
+  f.write(smt)
+  f.close()
+  p = subprocess.Popen(cmd + [f.name], stdout=subprocess.PIPE, stderr=subprocess.STDOUT, text=True)
+  return p, f.name, time.time()
+
+
+def finish_cli(h, wait_s):
+  p, path, t0 = h
+  try:
+    out, _ = p.communicate(timeout=max(0.0, wait_s))
+    out = (out or '').strip()
+  except subprocess.TimeoutExpired:
+    p.kill()
+    try:
+      p.communicate(timeout=2)
+    except Exception:
+      pass
+    out = 'timeout'
+  finally:
+    try:
+      os.unlink(path)
+    except OSError:
+      pass
+  first = out.splitlines()[0].strip() if out else ''
+  status = first if first in ('sat', 'unsat', 'unknown') else 'unknown'
+  return status, time.time() - t0, out[:400]
+
+
 def discharge(obligations, budget_s=20.0, portfolio=True, seeds=(0,)):
   for ob in obligations:
     if ob.status == 'unsat':
       continue
     results = {}
-    # staged portfolio: a quick z3 attempt, then the other solvers, then z3 with the full budget
-    quick = min(3.0, budget_s)
+    # staged portfolio: a quick z3 attempt; then cvc5 and the older z3 run as subprocesses
+    # concurrently with z3 at the full budget
+    quick = budget_s  # (a shorter first attempt changes z3's strategy and loses proofs)
     st, dt, out, model = run_z3(ob, quick, seeds[0])
     results['z3-5.1'] = (st, dt, out)
     ob.model = model
     if st == 'unknown' and portfolio:
+      handles = {}
       try:
         smt = to_smt2(ob)
         ob.smt2 = smt
-        st2, dt2, out2 = run_cli([CVC5, '--lang=smt2', f'--tlimit={int(budget_s * 1000)}', '--strings-exp'], smt, budget_s)
-        results['cvc5-1.0.3'] = (st2, dt2, out2)
-        if st2 != 'unsat':
-          st3, dt3, out3 = run_cli([Z3_OLD, f'-T:{int(budget_s)}'], smt, budget_s)
-          results['z3-4.8.12'] = (st3, dt3, out3)
+        handles['cvc5-1.0.3'] = start_cli([CVC5, '--lang=smt2', f'--tlimit={int(budget_s * 1000)}', '--strings-exp'], smt, budget_s)
+        handles['z3-4.8.12'] = start_cli([Z3_OLD, f'-T:{int(budget_s)}'], smt, budget_s)
       except Exception as e:  # export problems never become verdicts
         results['export'] = ('error', 0.0, repr(e)[:200])
-    if st == 'unknown' and budget_s > quick and not any(r[0] in ('unsat', 'sat') for r in results.values()):
-      st4, dt4, out4, model4 = run_z3(ob, budget_s, seeds[0])
-      results['z3-5.1/full'] = (st4, dt4, out4)
-      if model4 is not None:
-        ob.model = model4
+      t_full = time.time()
+      if budget_s > quick:
+        st4, dt4, out4, model4 = run_z3(ob, budget_s, seeds[0])
+        results['z3-5.1/full'] = (st4, dt4, out4)
+        if model4 is not None:
+          ob.model = model4
+      decided = any(r[0] in ('unsat', 'sat') for r in results.values())
+      for name, h in handles.items():
+        remaining = 0.0 if decided else budget_s + 3 - (time.time() - h[2])
+        results[name] = finish_cli(h, remaining)
+        decided = decided or results[name][0] in ('unsat', 'sat')
+    if portfolio and not any(r[0] in ('unsat', 'sat') for r in results.values()) and _RETRIES[0] > 0:
+      # last resort before an obligation is reported open: other random seeds (guards against
+      # verdicts flipping under load); bounded per process
+      _RETRIES[0] -= 1
+      for sd in (11, 23):
+        stn, dtn, outn, _ = run_z3(ob, budget_s, sd)
+        results[f'z3-5.1/retry-seed{sd}'] = (stn, dtn, outn)
+        if stn == 'unsat':
+          break
     for sd in seeds[1:]:
       stn, dtn, outn, _ = run_z3(ob, budget_s, sd)
       results[f'z3-5.1/seed{sd}'] = (stn, dtn, outn)
